@@ -738,14 +738,21 @@ def c09_mach0(rng, tier):
 @oracle("C19", "order_split_far")
 def c19_composition(rng, tier):
     ns = int(rng.choice([2, 3, 3]))
+    from . import oracles as _o
     surfaces = []
+    mixed = bool(_o.CURRENT_K % 2 == 1)
     for k in range(ns):
         nx, ny = _sizes(rng, tier)
         sym = bool(rng.integers(2))
+        right = bool(sym and rng.uniform() < 0.5)
+        # symmetric surfaces are meshed on either side (left or right half): per-surface flags must not leak between surfaces.
+        # Every second case has two symmetric surfaces of opposite sides with at least two spanwise panels (with one panel the
+        # mirrored indexing is invisible); which of them comes last alternates
+        if mixed and k < 2:
+            sym = True; ny = max(ny, 3); right = bool((k + (_o.CURRENT_K // 2)) % 2)
         if not sym and ny % 2 == 0:
             ny += 1
-        # symmetric surfaces are meshed on either side (left or right half): per-surface flags must not leak between surfaces
-        mesh = gen.rand_mesh(rng, nx, ny, sym, jitter=0.0, right=bool(sym and rng.uniform() < 0.5))
+        mesh = gen.rand_mesh(rng, nx, ny, sym, jitter=0.0, right=right)
         mesh[:, :, 0] += 5.0 * k; mesh[:, :, 2] += 0.8 * k
         surfaces.append(_surf("s%d" % k, mesh, sym, rng))
     compressible = bool(rng.uniform() < 0.3)
